@@ -133,6 +133,7 @@ class Ctx:
         self.sidecars = {}
         self.noop_calls = {"print"}
         self.dyn_getattr = {}   # function qualname -> contract name for getattr with computed names
+        self.call_overrides = {}  # (function qualname, call text) -> contract name
         self.event_calls = {}   # "logger.warning" -> contract name (calls that are otherwise dropped)
         self.structural = []
         self.macros = {}
@@ -168,6 +169,7 @@ class Ctx:
         self.names.update(getattr(mod, "NAMES", {}))
         self.noop_calls |= set(getattr(mod, "NOOP_CALLS", []))
         self.dyn_getattr.update(getattr(mod, "DYN_GETATTR", {}))
+        self.call_overrides.update(getattr(mod, "CALL_OVERRIDES", {}))
         self.event_calls.update(getattr(mod, "EVENT_CALLS", {}))
         for sig, body in getattr(mod, "MACROS", {}).items():
             call = ast.parse(sig, mode="eval").body
@@ -230,6 +232,7 @@ class State:
         self.exc = None         # name of the exception class being handled (for bare raise)
         self.guards = []        # local short-circuit guards (for safety obligations in pure subexpressions)
         self.fresh = []         # objects allocated on this path (pairwise distinct)
+        self.born = []          # of those: objects assumed NOT allocated when they were created (constructor / returns_fresh results)
         self.alloc = z3.Const("ALLOC!0", z3.ArraySort(Ref, z3.BoolSort()))   # allocation ghost: which references exist already
 
     def new_object(self, z):
@@ -247,6 +250,7 @@ class State:
         s.exc = self.exc
         s.guards = list(self.guards)
         s.fresh = list(self.fresh)
+        s.born = list(self.born)
         s.alloc = self.alloc
         return s
 
@@ -610,7 +614,7 @@ class Task:
             goals = []
             for a, b in zip(arrs, olds):
                 exp = b
-                for o in per_obj.get(key, []):
+                for o in per_obj.get(key, []) + list(st.born):     # objects born on this path are outside the caller's footprint
                     exp = z3.Store(exp, o, z3.Select(a, o))
                 goals.append(a == exp)
             self.oblige(st, f"{self.label}: frame: {key[0]}.{key[1]} only changes where the modifies clause allows", z3.And(*goals), "frame")
@@ -1731,6 +1735,23 @@ class Task:
                     res.append((s2, None, e)); continue
                 res += self.call_contract(s2, self.ctx.contracts[cn], None, vals, {}, node)
             return res
+        ov = self.ctx.call_overrides.get((self.contract.source, ftxt))
+        if ov is not None:
+            # a sidecar-declared contract for this particular call expression (reflection, **kwargs calls)
+            argn = list(node.args) + [k.value for k in node.keywords]
+            res = []
+            for s2, vals, e in self.ev_many([a.value if isinstance(a, ast.Starred) else a for a in argn], st):
+                if e is not None:
+                    res.append((s2, None, e)); continue
+                recv = []
+                if isinstance(f, ast.Name) and f.id in s2.locals:
+                    recv = [s2.locals[f.id]]        # a local holding the callee (e.g. the class being instantiated)
+                res += self.call_contract(s2, self.ctx.contracts[ov], None, recv + vals, {}, node)
+            return res
+        if isinstance(f, ast.Attribute) and f.attr == "pop" and 1 <= len(node.args) <= 2 and not node.keywords:
+            r = self.try_dict_pop(node, st)
+            if r is not None:
+                return r
         if isinstance(f, ast.Attribute) and f.attr in ("startswith", "endswith") and len(node.args) == 1 and not node.keywords:
             res = []
             for s2, vals, e in self.ev_many([f.value, node.args[0]], st):
@@ -1823,6 +1844,36 @@ class Task:
             self.dropped.add("dict.update(other) body: replaced by the assumed builtin semantics (union, other wins, existing keys keep their position)")
             for s3 in self.assign_to(_as_store(f.value), new, s2):
                 res.append((s3, VNONE, None) if not isinstance(s3, Outcome) else (s3.st, None, s3.exc))
+        return res
+
+    def try_dict_pop(self, node, st):
+        """d.pop(k, default): value (or default) and the map without k (assumed builtin semantics; other keys keep their relative order)"""
+        f = node.func
+        res = []
+        for s2, vals, e in self.ev_many([f.value] + list(node.args), st):
+            if e is not None:
+                res.append((s2, None, e)); continue
+            m = vals[0]
+            if not (isinstance(m, V) and isinstance(m.sort, MapSort)) or len(vals) < 3:
+                return None
+            k = coerce(vals[1], m.sort.key)
+            dflt = coerce(vals[2], m.sort.val)
+            had, val = map_has(m, k), map_get(m, k)
+            new = m.sort.fresh("pop")
+            d1, v1, k1 = map_parts(m); d3, v3, k3 = map_parts(new)
+            q = z3.Const(fresh_name("popk"), m.sort.key.comps()[0])
+            i, j = z3.Int(fresh_name("popi")), z3.Int(fresh_name("popj"))
+            s2.assume(z3.ForAll([q], z3.Select(d3, q) == z3.And(z3.Select(d1, q), q != k.z)))
+            for a1, a3 in zip(v1, v3):
+                s2.assume(z3.ForAll([q], z3.Implies(q != k.z, z3.Select(a3, q) == z3.Select(a1, q))))
+            s2.assume(k3.comps[0] == k1.comps[0] - z3.If(had, 1, 0))
+            s2.assume(z3.Implies(z3.Not(had), z3.ForAll([i], z3.Implies(z3.And(0 <= i, i < k1.comps[0]), z3.Select(k3.comps[1], i) == z3.Select(k1.comps[1], i)))))
+            s2.assume(z3.ForAll([i, j], z3.Implies(z3.And(0 <= i, i < j, j < k3.comps[0]), z3.Select(k3.comps[1], i) != z3.Select(k3.comps[1], j))))
+            s2.assume(z3.ForAll([i], z3.Implies(z3.And(0 <= i, i < k3.comps[0]), z3.Select(d3, z3.Select(k3.comps[1], i)))))
+            s2.assume(z3.ForAll([q], z3.Implies(z3.Select(d3, q), z3.Exists([i], z3.And(0 <= i, i < k3.comps[0], z3.Select(k3.comps[1], i) == q)))))
+            self.dropped.add("dict.pop(k, default) body: replaced by the assumed builtin semantics")
+            for s3 in self.assign_to(_as_store(f.value), new, s2):
+                res.append((s3, v_ite(had, val, dflt), None) if not isinstance(s3, Outcome) else (s3.st, None, s3.exc))
         return res
 
     def try_dict_get(self, node, st):
@@ -1924,6 +1975,7 @@ class Task:
         st.new_object(obj.z)
         st.assume(z3.Not(z3.Select(st.alloc, obj.z)))      # a constructor returns an object that did not exist before
         st.alloc = z3.Store(st.alloc, obj.z, z3.BoolVal(True))
+        st.born = st.born + [obj.z]
         res = []
         for s2, v, e in self.call_contract(st, c, obj, pos, kw, node):
             res.append((s2, obj if e is None else None, e))
@@ -2033,6 +2085,7 @@ class Task:
                     s.new_object(r.z)
                     s.assume(z3.Not(z3.Select(s.alloc, r.z)))
                     s.alloc = z3.Store(s.alloc, r.z, z3.BoolVal(True))
+                    s.born = s.born + [r.z]
                 e2["result"] = r
                 clauses = dict(c.ensures)
                 clauses.update(c.ensures_for.get(self_cls, {}))
@@ -2098,6 +2151,8 @@ class Task:
                 res.append((s2, vals[0], None))
             elif name == "bool":
                 res.append((s2, vbool(truth(vals[0])), None))
+            elif name == "type" and len(vals) == 1 and isinstance(vals[0], V) and vals[0].sort == NONE:
+                res.append((s2, vref(z3.Const("class.NoneType", Ref), "TypeObj"), None))
             elif name == "type" and len(vals) == 1:
                 res.append((s2, VOpaque(f"type({vals[0]})"), None))
             elif name == "abs" and is_num(vals[0]):
@@ -2503,6 +2558,9 @@ class SpecEval:
         if name == "has_attr":
             return self.t.read_field(self.st, self.ev(n.args[0]), "?" + n.args[1].value,
                                      self.old[0] if (self.in_old and self.old) else None)
+        if name == "same_map":
+            a, b = self.ev(n.args[0]), self.ev(n.args[1])
+            return vbool(z3.And(*[x == y for x, y in zip(a.comps, b.comps)]))
         if name == "join":
             sep, sq = self.ev(n.args[0]), self.ev(n.args[1])
             return vstr(STR_JOIN(sep.z, sq.comps[0], sq.comps[1]))
